@@ -67,7 +67,7 @@ func genC08(r *rand.Rand) c08Case {
 		s.Hop = chance(r, 0.3)
 		s.NewETag = chance(r, 0.3) && c.Validators != "lm"
 		s.Expires = chance(r, 0.2)
-		s.VaryChg = s.Kind == "200" && c.Vary && chance(r, 0.2)
+		s.VaryChg = s.Kind == "200" && chance(r, 0.2)
 		s.TwoLine = s.Kind == "304" && (i+n+int(s.NewL))%3 == 0 // (derived: the case list of earlier versions is unchanged)
 		s.Follow = nil
 		for _, f := range []float64{0, 1, 0.5, -2} {
@@ -196,6 +196,9 @@ func c08Run(r *run.Runner, c c08Case) {
 		etagGen++
 		if st.VaryChg {
 			varyNow = []string{"X-A, X-B"}
+			if !c.Vary {
+				varyNow = []string{"X-B"}
+			}
 		}
 		rs := baseSpec(st.NewL)
 		rs.DelayS = bgDelay
@@ -225,6 +228,8 @@ func c08Run(r *run.Runner, c c08Case) {
 	}
 	first := w.Do(sim.ReqSpec{URL: url, Header: hdr("chain")})
 	bodyTok := first.BodySerial()
+	replaced := map[string]bool{} // tokens of chain responses that a full reply to a validation replaced
+	varyChanged := false
 	lastValidated := first.TReturn
 	obsOf := func() []string { return exSummaries(w) }
 	anyChecked := false
@@ -386,6 +391,12 @@ func c08Run(r *run.Runner, c c08Case) {
 				}
 			}
 		}
+		if expectBody != bodyTok {
+			replaced[bodyTok] = true
+			if st.VaryChg {
+				varyChanged = true
+			}
+		}
 		bodyTok = expectBody
 		curL = expectL
 		// the age base shortens the remaining lifetime for the next wait
@@ -398,6 +409,21 @@ func c08Run(r *run.Runner, c c08Case) {
 		anyChecked = true
 		if len(ov.Calls()) > 0 || ov.BodySerial() != tok {
 			r.Violation("other-variant-lost", "final-sweep", fmt.Sprintf("variant %s (token %s) is no longer served from the store at the end of the chain; %s", v, tok, ov.Summary()), obsOf())
+		}
+	}
+	// a response that a validation's full reply replaced is gone, also when the
+	// new reply nominates other fields: a request that the old Vary would have
+	// matched (and the new one does not) is not answered with the old response
+	if varyChanged {
+		h := hdr("chain")
+		if h == nil {
+			h = map[string][]string{}
+		}
+		h["X-B"] = []string{"probe"}
+		pv := w.Do(sim.ReqSpec{URL: url, Header: h})
+		r.Count("probes_after_vary_changing_replacement", 1)
+		if replaced[pv.BodySerial()] {
+			r.Violation("replaced-response-served", "after-vary-change", fmt.Sprintf("a response replaced by a validation's full reply (token %s) is still served, to a request the replacement's Vary does not match; %s", pv.BodySerial(), pv.Summary()), obsOf())
 		}
 	}
 	if anyChecked {
